@@ -69,6 +69,8 @@ func lossyConversion(from, to types.Type) bool {
 func checkC19(r *core.Run, p *core.Program) {
 	r.Rule("C19.lossy-op", "in the numeric conversion functions (builder set*From* helpers and package conversions), every operation that can change the mathematical value of data derived from the input — a narrowing / sign-changing / float<->int conversion, reflect SetInt/SetUint/SetFloat into a possibly narrower kind, big.Int.Int64/Uint64, big.Float.Int64/Uint64/Float64/Int, a shift of the input — is guarded: dominated by a range or sign test on the source that leaves the function, or followed by a round-trip comparison of the stored/converted value with the original whose failing branch raises, or its accuracy result is compared with big.Exact, or its error result is checked.")
 	r.Rule("C19.sign", "in every OnNegativeInt implementation the magnitude parameter is only used in ways that carry the sign: negated, given to a Neg/negative-form writer or a negative type code, converted to the negative-magnitude key type, compared, or forwarded to another OnNegativeInt; it never reaches a positive/unsigned sink un-negated.")
+	r.Rule("C19.decimal-sign", "a function that takes the coefficient of an apd.Decimal (field Coeff holds the magnitude only) consults the field Negative before every successful return that follows or contains that use: a shortcut return placed before the sign handling turns a negative number into its absolute value without an error.")
+	checkC19DecimalSign(r, p)
 	r.Rule("C19.decimal-construct", "a big decimal is not assembled by hand from a number that can be negative: in a composite literal of apd.Decimal the coefficient is never the dereference of a caller's *big.Int (negative coefficient, and the copy shares the caller's digits), never *big.NewInt(-x) (wraps for the smallest int64), and *big.NewInt(x) of a signed x only where the path excludes x < 0; apd.New / apd.NewWithBigInt split magnitude and sign correctly.")
 	checkC19DecimalConstruct(r, p)
 	r.Rule("C19.big-fits", "(*big.Int).Uint64() and (*big.Int).Int64() - which silently return the low 64 bits of anything - are only taken on paths whose conditions imply IsUint64() / IsInt64() of the same value (a bit-length test alone does not exclude negative values).")
@@ -753,4 +755,74 @@ func checkC19DecimalConstruct(r *core.Run, p *core.Program) {
 		}
 	}
 	r.Count("C19.decimal-construct big decimals assembled from a coefficient", n)
+}
+
+func checkC19DecimalSign(r *core.Run, p *core.Program) {
+	n := 0
+	for _, rel := range []string{"conversions", "builder", "iterator", "cbe", "cte", "rules"} {
+		pkg := p.Pkg(rel)
+		info := pkg.TypesInfo
+		for _, f := range funcsOf(pkg) {
+			var coeff, neg []token.Pos
+			ast.Inspect(f.Decl.Body, func(nd ast.Node) bool {
+				sel, ok := nd.(*ast.SelectorExpr)
+				if !ok {
+					return true
+				}
+				t := info.TypeOf(sel.X)
+				if t == nil {
+					return true
+				}
+				if pt, isP := t.Underlying().(*types.Pointer); isP {
+					t = pt.Elem()
+				}
+				if !typeIs(t, "github.com/cockroachdb/apd/v2", "Decimal") {
+					return true
+				}
+				switch sel.Sel.Name {
+				case "Coeff":
+					coeff = append(coeff, sel.Pos())
+				case "Negative", "Sign", "Cmp", "Int64", "Float64", "Text", "String":
+					neg = append(neg, sel.Pos())
+				}
+				return true
+			})
+			if len(coeff) == 0 {
+				continue
+			}
+			// composite literals that copy Coeff and Negative together are judged by C19.decimal-construct
+			ast.Inspect(f.Decl.Body, func(nd ast.Node) bool {
+				if _, isLit := nd.(*ast.FuncLit); isLit {
+					return false
+				}
+				ret, ok := nd.(*ast.ReturnStmt)
+				if !ok || len(ret.Results) == 0 || !isNilExpr(info, ret.Results[len(ret.Results)-1]) {
+					return true
+				}
+				if _, isErr := info.TypeOf(ret.Results[len(ret.Results)-1]).(*types.Basic); !isErr && len(ret.Results) < 2 {
+					return true
+				}
+				used := false
+				for _, c := range coeff {
+					if c < ret.End() {
+						used = true
+					}
+				}
+				if !used {
+					return true
+				}
+				n++
+				signed := false
+				for _, g := range neg {
+					if g < ret.End() {
+						signed = true
+					}
+				}
+				r.Check("C19.decimal-sign", f.Name()+"|return after Coeff", ret.Pos(), signed,
+					"this successful return follows (or contains) a use of the decimal's Coeff, which is the magnitude only, but the sign (field Negative) has not been consulted yet: a negative number is converted to its absolute value")
+				return true
+			})
+		}
+	}
+	r.Floor("C19.decimal-sign", "successful returns after a Coeff use", n, 1)
 }
